@@ -270,6 +270,11 @@ def _counting(base: type, label: str) -> type:
             continue
         raw = None
         for klass in base.__mro__:
+            if klass is object:
+                # inherited object slots (__lt__, __format__, ...) are not operations the
+                # undefined types define; those that matter end in a wrapped method anyway
+                # (object.__ne__ -> __eq__, object.__format__ -> __str__)
+                break
             if name in klass.__dict__:
                 raw = klass.__dict__[name]
                 break
@@ -561,6 +566,11 @@ class Runner:
                 eb = b[i] if i < len(b) else None
                 if ea is None or eb is None or (ea[0], ea[2]) != (eb[0], eb[2]):
                     e = eb or ea
+                    if ea and eb and ea[:2] == eb[:2] and not e[0].startswith("attr:"):
+                        # same operation at the same place, different answer: the
+                        # mechanism is the undefined class's own method
+                        cls = {"strict": "StrictUndefined", "falsy": "FalsyStrictUndefined"}[pol]
+                        return f"{cls}.{e[0]}"
                     return f"{e[1]}/{e[0]}"
             return text
         if clause == "default-raises":
@@ -1086,9 +1096,9 @@ def floors(tier: str) -> dict[str, int]:
         "async_triples": 300 * k,
         "set:touch_kinds": 8,
         "sweep_programs": 6000,
-        "nouse_programs": 1000 * k,
-        "nouse_falsy_ok_after_touch": 300 * k,
-        "nouse_strict_ok_with_undefined_created": 300 * k,
+        "nouse_programs": 800 if tier == "quick" else 8000,
+        "nouse_falsy_ok_after_touch": 400 if tier == "quick" else 3000,
+        "nouse_strict_ok_with_undefined_created": 300 if tier == "quick" else 2500,
         "distinct_nontrivial": 2000 * k,
     }
 
@@ -1153,8 +1163,8 @@ def _corpus(r: Runner, spec: dict[str, Any], ctx: Ctx) -> None:
 def _gen(r: Runner, spec: dict[str, Any], ctx: Ctx) -> None:
     tier = spec["tier"]
     rng = random.Random(f"{spec['seed']}:gen:{spec['i']}")
-    nprog = 330 if tier == "quick" else 2200
-    upto, nsample = (3, 9) if tier == "quick" else (6, 40)
+    nprog = 330 if tier == "quick" else 1500
+    upto, nsample = (3, 9) if tier == "quick" else (6, 32)
     tpls = G.PARTIALS
     last = None
     for pi in range(nprog):
